@@ -32,7 +32,7 @@ func cmdGen(out string) {
 	// process and nothing has configured it yet
 	defLimit := atree.VerifSetMaxCollisionLimitPerDigest(0)
 	atree.VerifSetMaxCollisionLimitPerDigest(defLimit)
-	fmt.Fprintf(&sb, "Definition c_defaultMaxCollisionLimitPerDigest : N := %d.\n", defLimit)
+	fmt.Fprintf(&sb, "Definition c_initialMaxCollisionLimitPerDigest : N := %d.\n", defLimit)
 	writeIfChanged(out+"/Consts.v", sb.String())
 	genSettingsTable(out)
 }
